@@ -491,6 +491,20 @@ impl TryFrom<DbPasswordV1> for Password {
     }
 }
 
+/// A sha256-crypt hash field is 43 characters of the crypt(3) base64 alphabet, the last of
+/// which carries only 4 bits. `sha_crypt::sha256_check` unwraps the decode of that field and
+/// PANICS on anything else (sha-crypt 0.5.0 `decode_sha256`), so refuse such values first.
+fn sha256_crypt_hash_field_is_valid(h: &str) -> bool {
+    const TAB: &[u8] = b"./0123456789ABCDEFGHIJKLMNOPQRSTUVWXYZabcdefghijklmnopqrstuvwxyz";
+    let field = h.rsplit('$').next().unwrap_or_default().as_bytes();
+    field.len() == 43
+        && field.iter().all(|c| TAB.contains(c))
+        && field
+            .last()
+            .map(|c| TAB[..16].contains(c))
+            .unwrap_or(false)
+}
+
 // OpenLDAP based their PBKDF2 implementation on passlib from python, that uses a
 // non-standard base64 altchar set and padding that is not supported by
 // anything else in the world. To manage this, we only ever encode to base64 with
@@ -1139,7 +1153,8 @@ impl Password {
                 Ok(chal_key == *h)
             }
             (Kdf::CRYPT_SHA256 { h }, _) => {
-                let is_valid = sha_crypt::sha256_check(cleartext, h.as_str()).is_ok();
+                let is_valid = sha256_crypt_hash_field_is_valid(h.as_str())
+                    && sha_crypt::sha256_check(cleartext, h.as_str()).is_ok();
 
                 Ok(is_valid)
             }
